@@ -275,8 +275,6 @@ class Evaluator:
                     c.func.value.id in env and env[c.func.value.id].kind == 'list' and env[c.func.value.id].items is not None and \
                     len(c.args) <= 1:
                 cur = env[c.func.value.id]
-                if sum(1 for v_ in env.values() if v_ is cur) > 1:
-                    raise Unknown('in-place change of a list that has two names')
                 k_ = -1
                 if c.args:
                     kv_ = self.ev(c.args[0], env)
@@ -293,8 +291,6 @@ class Evaluator:
                     isinstance(c.func.value, ast.Name) and c.func.value.id in env and env[c.func.value.id].kind == 'list' and \
                     env[c.func.value.id].items is not None and len(c.args) == 1:
                 cur = env[c.func.value.id]
-                if sum(1 for v_ in env.values() if v_ is cur) > 1:
-                    raise Unknown('in-place change of a list that has two names')
                 v = self.ev(c.args[0], env)
                 if c.func.attr in ('append', 'add'):
                     env[c.func.value.id] = self._fwd(cur, AV('list', items=cur.items + (v,)))
@@ -353,8 +349,7 @@ class Evaluator:
                     for e, x in zip(t.elts, v.items):
                         env[e.id] = x
                 elif isinstance(t, ast.Subscript) and isinstance(t.value, ast.Name) and t.value.id in env and \
-                        env[t.value.id].kind == 'dict' and env[t.value.id].items is not None and \
-                        self._references(env[t.value.id], env) <= 1:
+                        env[t.value.id].kind == 'dict' and env[t.value.id].items is not None:
                     cur_ = env[t.value.id]
                     key_ = self.ev(t.slice, env)
                     env[t.value.id] = self._fwd(cur_, self._with_entry(cur_, key_, v))
@@ -436,6 +431,23 @@ class Evaluator:
                     return
             return
         if isinstance(st, (ast.Import, ast.ImportFrom)):
+            return
+        if isinstance(st, ast.With):
+            for it in st.items:
+                cm_ = self.ev(it.context_expr, env)
+                if cm_.kind != 'obj':
+                    raise Unknown('a context manager that is not a modelled object')
+                at_ = self.obj_attrs(cm_)
+                entered_ = self.call_value(at_['__enter__'], []) if '__enter__' in at_ else cm_
+                if it.optional_vars is not None:
+                    self.assign_to(it.optional_vars, entered_, env)
+            try:
+                self.exec_block(st.body, env)
+            finally:
+                for it in st.items:
+                    cm_ = self.ev(it.context_expr, env) if isinstance(it.context_expr, ast.Name) else None
+                if 'at_' in locals() and '__exit__' in at_:
+                    self.call_value(at_['__exit__'], [AV('none'), AV('none'), AV('none')])
             return
         if isinstance(st, ast.FunctionDef) and not st.decorator_list:
             env[st.name] = AV('func', val=('closure', st, env))
@@ -801,7 +813,7 @@ class Evaluator:
             at = self.obj_attrs(cur)
             at['items'] = new_of(at['items'])
             return
-        if self._references(cur, env) > 1:
+        if not isinstance(node, ast.Name) and self._references(cur, env) > 1:
             raise Unknown('in-place change of a container that is visible under two names')
         self.assign_to(node, new_of(cur), env, old=cur)
 
@@ -884,6 +896,14 @@ class Evaluator:
 
     # ---- expressions -------------------------------------------------------------------------------
     def ev(self, node, env) -> AV:
+        """every read of a list / dict sees its latest state (an in-place change re-binds one holder and forwards the old value to
+        the new one: all other holders -- aliases, frames of callers, comprehension scopes -- follow the forward)"""
+        v = self._ev(node, env)
+        if v.kind in ('list', 'dict') and getattr(self, 'forward', None):
+            return self._latest(v)
+        return v
+
+    def _ev(self, node, env) -> AV:
         if isinstance(node, ast.Constant):
             return const_av(node.value)
         if isinstance(node, ast.Name):
@@ -931,7 +951,16 @@ class Evaluator:
                 left = right
             return const_av(True)
         if isinstance(node, (ast.List, ast.Tuple)):
-            return AV('list' if isinstance(node, ast.List) else 'tuple', items=tuple(self.ev(e, env) for e in node.elts))
+            items_ = []
+            for e in node.elts:
+                if isinstance(e, ast.Starred):
+                    sv_ = self.ordered(self.ev(e.value, env))
+                    if sv_.items is None:
+                        raise Unknown('* of a collection of unknown contents')
+                    items_.extend(sv_.items)
+                else:
+                    items_.append(self.ev(e, env))
+            return AV('list' if isinstance(node, ast.List) else 'tuple', items=tuple(items_))
         if isinstance(node, ast.Call):
             return self.call(node, env)
         if isinstance(node, ast.Attribute):
@@ -1275,6 +1304,11 @@ class Evaluator:
     def call(self, node: ast.Call, env) -> AV:
         f = node.func
         name = f.id if isinstance(f, ast.Name) else None
+        ext_ = getattr(self, 'externals', None)
+        if ext_:
+            txt_ = ast.unparse(f)
+            if txt_ in ext_ and not (name is not None and name in env):
+                return ext_[txt_](self._args(node, env), {k.arg: self.ev(k.value, env) for k in node.keywords if k.arg})
         if name in ('float', 'int', 'str', 'abs', 'bool') and len(node.args) == 1 and not node.keywords and name not in env and \
                 not (isinstance(node.args[0], ast.Name) and node.args[0].id == '__arg0__'):
             v0_ = self.ev(node.args[0], env)
@@ -1287,7 +1321,7 @@ class Evaluator:
             return self.call(ast.Call(func=f, args=[ast.Name(id='__arg0__', ctx=ast.Load())], keywords=[]), {**env, '__arg0__': v0_})
         if name is not None and name in env and env[name].kind == 'func' and isinstance(env[name].val, tuple) and \
                 env[name].val[0] == 'closure':
-            return self.call_closure(env[name].val, [self.ev(a, env) for a in node.args])
+            return self.call_closure(env[name].val, self._args(node, env))
         if name is not None and name in env and env[name].kind == 'other' and isinstance(env[name].val, tuple) and \
                 env[name].val[0] == 'name' and env[name].val[1] in ('int', 'float', 'str', 'bool'):
             name = env[name].val[1]                       # a builtin passed around as a value
@@ -1300,20 +1334,20 @@ class Evaluator:
             return self.new_obj(name, {})
         if name is not None and name in env and env[name].kind == 'func' and isinstance(env[name].val, tuple) and \
                 env[name].val[0] == 'native':
-            return env[name].val[1]([self.ev(a, env) for a in node.args])
+            return env[name].val[1](self._args(node, env))
         if name is not None and name in env and env[name].kind == 'func':
             hook = self.hooks.get('<call:' + name + '>') or self.hooks.get('<call>')
             if hook is None and isinstance(env[name].val, tuple) and env[name].val[0] == 'lambda':
-                return self.call_lambda(env[name].val, [self.ev(a, env) for a in node.args])
+                return self.call_lambda(env[name].val, self._args(node, env))
             if hook is None:
                 raise Unknown(f'call of the function value {name}')
-            return hook(self, [self.ev(a, env) for a in node.args])
+            return hook(self, self._args(node, env))
         if name is not None and name in getattr(self, 'constructors', {}) and \
                 (name not in env or (env[name].kind == 'other' and isinstance(env[name].val, tuple) and env[name].val[0] == 'class')):
-            return self.constructors[name]([self.ev(a, env) for a in node.args],
+            return self.constructors[name](self._args(node, env),
                                            {k.arg: self.ev(k.value, env) for k in node.keywords if k.arg})
         if name is not None and name not in env and name in self.functions:
-            res_ = self.call_function(self.functions[name], [self.ev(a, env) for a in node.args],
+            res_ = self.call_function(self.functions[name], self._args(node, env),
                                       {k.arg: self.ev(k.value, env) for k in node.keywords if k.arg})
             self._write_back(node, env)
             return res_
@@ -1378,7 +1412,7 @@ class Evaluator:
                 return AV('list', items=tuple(keep))
             return AV('list', items=tuple(self.call_value(fv, [x]) for x in seq.items))
         if name == 'range' and 1 <= len(node.args) <= 3:
-            vs = [self.ev(a, env) for a in node.args]
+            vs = self._args(node, env)
             if not all(isinstance(v.val, int) and not isinstance(v.val, bool) for v in vs):
                 raise Unknown('range of unknown bounds')
             return AV('list', items=tuple(const_av(i) for i in range(*[v.val for v in vs])))
@@ -1410,7 +1444,7 @@ class Evaluator:
             return self.make_set(v.items if v.kind != 'dict' else [kv.items[0] for kv in v.items])
         if name in ('min', 'max') and (len(node.args) >= 2 or (len(node.args) == 1 and any(k.arg == 'default' for k in node.keywords))):
             if len(node.args) >= 2:
-                cand = [self.ev(a, env) for a in node.args]
+                cand = self._args(node, env)
             else:
                 seq = self.ev(node.args[0], env)
                 if seq.items is None:
@@ -1511,7 +1545,7 @@ class Evaluator:
                 not (isinstance(f, ast.Name) and f.id in env):
             import decimal as _d
             target_ = _d.Decimal if ast.unparse(f).endswith('Decimal') else _d.Context
-            return self._decimal_call(target_, [self.ev(a, env) for a in node.args], {k.arg: self.ev(k.value, env) for k in node.keywords if k.arg})
+            return self._decimal_call(target_, self._args(node, env), {k.arg: self.ev(k.value, env) for k in node.keywords if k.arg})
         if isinstance(f, ast.Attribute) and not (isinstance(f.value, ast.Name) and f.value.id in ('self', 'cls', 're', 'datetime', 'math')):
             try:
                 recv_py_ = self.ev(f.value, env)
@@ -1519,7 +1553,7 @@ class Evaluator:
                 recv_py_ = None
             if recv_py_ is not None and recv_py_.kind == 'other' and isinstance(recv_py_.val, tuple) and recv_py_.val[0] == 'py' and \
                     not f.attr.startswith('_') and callable(getattr(recv_py_.val[1], f.attr, None)):
-                return self._decimal_call(getattr(recv_py_.val[1], f.attr), [self.ev(a, env) for a in node.args],
+                return self._decimal_call(getattr(recv_py_.val[1], f.attr), self._args(node, env),
                                           {k.arg: self.ev(k.value, env) for k in node.keywords if k.arg})
         if name == 'format' and 1 <= len(node.args) <= 2 and not node.keywords:
             v0 = self.ev(node.args[0], env)
@@ -1531,7 +1565,7 @@ class Evaluator:
                     raise AbsRaise(type(e_).__name__, str(e_))
             raise Unknown('format with an unknown specification')
         if name == 'round' and 1 <= len(node.args) <= 2 and not node.keywords:
-            vs_ = [self.ev(a, env) for a in node.args]
+            vs_ = self._args(node, env)
             try:
                 return self._py(round(*[self._to_python(v_) for v_ in vs_]))
             except (ValueError, TypeError, OverflowError) as e_:
@@ -1616,19 +1650,19 @@ class Evaluator:
         if isinstance(f, ast.Attribute):
             # self.method(...)
             if isinstance(f.value, ast.Name) and f.value.id == 'cls' and f.attr in self.members:
-                args = [self.ev(a, env) for a in node.args]
+                args = self._args(node, env)
                 kw_ = {k.arg: self.ev(k.value, env) for k in node.keywords if k.arg}
                 res_ = self.call_method(f.attr, args, env.get('cls'), kw_)
                 self._write_back(node, env)
                 return res_
             if isinstance(f.value, ast.Name) and f.value.id == 'self' and self.class_method(env.get('self'), f.attr) is not None and \
                     f.attr not in self.obj_attrs(env['self']):
-                res_ = self.call_bound(self.class_method(env['self'], f.attr), env['self'], [self.ev(a, env) for a in node.args],
+                res_ = self.call_bound(self.class_method(env['self'], f.attr), env['self'], self._args(node, env),
                                        {k.arg: self.ev(k.value, env) for k in node.keywords if k.arg})
                 self._write_back(node, env)
                 return res_
             if isinstance(f.value, ast.Name) and f.value.id == 'self':
-                args = [self.ev(a, env) for a in node.args]
+                args = self._args(node, env)
                 kw_ = {k.arg: self.ev(k.value, env) for k in node.keywords if k.arg}
                 pref = getattr(self, 'prefix', '')
                 target = pref + f.attr if (pref + f.attr) in self.members or (pref + f.attr) in self.hooks else f.attr
@@ -1650,7 +1684,7 @@ class Evaluator:
                     raise Unknown('timedelta')
                 return AV('timedelta', val=('days', d.val))
             if txt == 'datetime.datetime' or txt == 'datetime.datetime.combine':
-                args = [self.ev(a, env) for a in node.args]
+                args = self._args(node, env)
                 origin = next((a.origin for a in args if a.origin), '')
                 if txt == 'datetime.datetime' and len(args) < 3 and node.keywords:
                     kw_ = {k.arg: self.ev(k.value, env) for k in node.keywords if k.arg}
@@ -1681,10 +1715,10 @@ class Evaluator:
             if recv.kind == 'obj':
                 at = self.obj_attrs(recv)
                 if f.attr in at and at[f.attr].kind == 'func':
-                    return self.call_value(at[f.attr], [self.ev(a, env) for a in node.args])
+                    return self.call_value(at[f.attr], self._args(node, env))
                 cm_ = self.class_method(recv, f.attr)
                 if cm_ is not None:
-                    res_ = self.call_bound(cm_, recv, [self.ev(a, env) for a in node.args],
+                    res_ = self.call_bound(cm_, recv, self._args(node, env),
                                            {k.arg: self.ev(k.value, env) for k in node.keywords if k.arg})
                     self._write_back(node, env)
                     return res_
@@ -1702,7 +1736,7 @@ class Evaluator:
                     'find', 'rfind', 'index', 'rindex', 'count', 'replace', 'startswith', 'endswith', 'title', 'capitalize', 'swapcase', 'casefold',
                     'zfill', 'ljust', 'rjust', 'center', 'isalnum', 'isspace', 'isdecimal', 'isidentifier', 'istitle', 'removeprefix',
                     'removesuffix', 'partition', 'rpartition', 'splitlines', 'rsplit', 'strip', 'lstrip', 'rstrip', 'expandtabs'):
-                args_ = [self.ev(a, env) for a in node.args]
+                args_ = self._args(node, env)
                 if all((a_.val is not None and isinstance(a_.val, (str, int)) and not isinstance(a_.val, bool)) or a_.kind == 'none' or
                        (a_.kind == 'tuple' and a_.items is not None and all(isinstance(x.val, str) for x in a_.items)) for a_ in args_):
                     plain_ = [None if a_.kind == 'none' else tuple(x.val for x in a_.items) if a_.kind == 'tuple' else a_.val for a_ in args_]
@@ -1774,7 +1808,7 @@ class Evaluator:
                     return const_av(wd if f.attr == 'weekday' else wd + 1)
                 raise Unknown('weekday of an unknown day')
             if recv.kind == 'blank' and f.attr.startswith('__') and ('EmptyCell.' + f.attr) in self.members:
-                args = [self.ev(a, env) for a in node.args]
+                args = self._args(node, env)
                 return self.call_method('EmptyCell.' + f.attr, args, recv)
             if recv.kind == 'func' and f.attr == '__call__':
                 raise Unknown('call of a lambda')
